@@ -210,6 +210,7 @@ func Check(c *core.Ctx, pool *gjs.Pool, cfg Config) {
 	if cfg.Families {
 		progs = append(progs, SwitchFamily()...)
 		progs = append(progs, LoopFamily()...)
+		progs = append(progs, CondFamily()...)
 	}
 	for i := 0; i < cfg.Random; i++ {
 		progs = append(progs, Random(rng))
@@ -557,11 +558,10 @@ func (ci *callInfo) mixedOrder(e []any) bool {
 	var operands [][]any
 	switch k {
 	case "add", "sub", "mul", "lt", "eq":
+		// operands of binary operators only: argument lists are evaluated in order
+		// by the compiler (translateArgs preserves the order when a later argument
+		// can suspend), so they are not part of the finding
 		operands = [][]any{e[1].([]any), e[2].([]any)}
-	case "call":
-		for _, a := range e[2].([]any) {
-			operands = append(operands, a.([]any))
-		}
 	}
 	for i := 0; i < len(operands); i++ {
 		for j := i + 1; j < len(operands); j++ {
